@@ -96,11 +96,26 @@ LinkType == [k |-> "complex", n |-> "LinkType", base |-> None,
 PingPong == << [k |-> "complex", n |-> "PingType", base |-> None, content |-> << SeqP(1, "1", << Ref("t", "PongEl", 0, "1") >>) >>, attrs |-> <<>>],
                [k |-> "element", n |-> "PongEl", inline |-> [content |-> << SeqP(1, "1", << El("pongValue", B("string"), 1, "1"), Ref("t", "PingEl", 0, "1") >>) >>, attrs |-> <<>>]],
                [k |-> "element", n |-> "PingEl", ty |-> T("t", "PingType")] >>
+\* the cycle passes through an extension: RecBase refers to the element RecKid2, whose type extends RecMid, which extends
+\* RecBase; RecLate extends RecMid too; all 120 orders of the five components (which of them is reached first, through
+\* which forward reference, while which other one is being converted)
+RecBase2 == [k |-> "complex", n |-> "RecBase", base |-> None,
+             content |-> << SeqP(1, "1", << El("baseTitle", B("string"), 1, "1"), Ref("t", "RecKid", 0, "unb") >>) >>, attrs |-> <<>>]
+RecKid2 == [k |-> "element", n |-> "RecKid",
+            inline |-> [base |-> T("t", "RecMid"), content |-> << SeqP(1, "1", << El("kidOwner", B("string"), 1, "1") >>) >>, attrs |-> <<>>]]
+RecMid == [k |-> "complex", n |-> "RecMid", base |-> T("t", "RecBase"),
+           content |-> << SeqP(1, "1", << El("midItem", B("string"), 1, "1") >>) >>, attrs |-> <<>>]
+RecLate == [k |-> "complex", n |-> "RecLate", base |-> T("t", "RecMid"),
+            content |-> << SeqP(1, "1", << El("lateItem", B("string"), 1, "1") >>) >>, attrs |-> <<>>]
+RecFive == <<RecFocus, RecLate, RecBase2, RecKid2, RecMid>>
+Perms5 == {p \in [1..5 -> 1..5] : \A i, j \in 1..5 : i # j => p[i] # p[j]}
+MidCases == {[items |-> [i \in 1..5 |-> RecFive[pm[i]]], content |-> RecFocus.content, attrs |-> <<>>, order |-> "before"] : pm \in Perms5}
 Perms3 == {<<1, 2, 3>>, <<1, 3, 2>>, <<2, 1, 3>>, <<2, 3, 1>>, <<3, 1, 2>>, <<3, 2, 1>>}
 RecTriple == <<RecFocus, RecBase, RecKid>>
 RecursiveCases == {[items |-> (CASE e = "self" -> <<LinkType>> [] e = "mutual" -> PingPong [] OTHER -> <<>>)
                                \o << RecTriple[pm[1]], RecTriple[pm[2]], RecTriple[pm[3]] >>,
                     content |-> RecFocus.content, attrs |-> <<>>, order |-> "before"] : pm \in Perms3, e \in {"none", "self", "mutual"}}
+                  \cup MidCases
 
 \* Slice "toplevel": the whole content of the type is a choice (no enclosing sequence), with its own occurrence;
 \* branches: builtin, named type, reference, a nested sequence; with and without attributes
@@ -171,7 +186,9 @@ Agreement ==
 Emit == PrintT(<<"CASE", ToJson([prop |-> "C02", drv |-> "gen", start |-> "f1.xsd", files |-> SetOf(c).files])>>)
 
 N(x, p, s) == [xml |-> x, pascal |-> p, snake |-> s]
-Vocab == [names |-> [RecBase |-> N("RecBase", "RecBase", "rec_base"), RecKid |-> N("RecKid", "RecKid", "rec_kid"),
+Vocab == [names |-> [RecMid |-> N("RecMid", "RecMid", "rec_mid"), RecLate |-> N("RecLate", "RecLate", "rec_late"),
+                     midItem |-> N("midItem", "MidItem", "mid_item"), lateItem |-> N("lateItem", "LateItem", "late_item"),
+                     RecBase |-> N("RecBase", "RecBase", "rec_base"), RecKid |-> N("RecKid", "RecKid", "rec_kid"),
                      baseTitle |-> N("baseTitle", "BaseTitle", "base_title"), baseId |-> N("baseId", "BaseId", "base_id"),
                      kidOwner |-> N("kidOwner", "KidOwner", "kid_owner"), LinkType |-> N("LinkType", "LinkType", "link_type"),
                      linkValue |-> N("linkValue", "LinkValue", "link_value"), linkNext |-> N("linkNext", "LinkNext", "link_next"),
